@@ -1973,3 +1973,7 @@ mod tests {
     assert!(reader.matched_writer(writer_guid).is_none());
   }
 }
+
+#[cfg(rustdds_verif)]
+#[path = "/verif/harness/incrate/access/reader.rs"]
+mod verif_access;
